@@ -2,6 +2,7 @@
 import copy, math
 
 from .. import ctorgen, probe, solved, sysdesc, wire
+from .. import hist as H
 
 CLAIM = True
 LEVEL_TEXT = ("Theorems (Lean 4, any linearly ordered field) about the constructor model mkComp: every rejection cause of the property "
@@ -240,6 +241,103 @@ def one_call(ctx, kind, a, tag, want_probe=True):
             accepted_checks(ctx, kind, a, case)
 
 
+TABLE_KINDS = ["converter", "vloss", "linreg", "pswitch", "pmux", "rectifier"]
+
+
+def alias_case(ctx, kind, a, arg, z, form, mut, pt=None):
+    """The accepted component is what the constructor validated - not whatever the caller's buffers hold later.
+    A 1-D table is given as float64 numpy arrays (`form`: which of io / value row / vi are arrays; the value row may be a VIEW of a
+    2-D array), the component is built and accepted, then the caller reuses the arrays in place (`mut`: scale the values up, flip
+    their sign, overwrite them) - e.g. to derive the table of the next part.  The component, solved afterwards in a probe system,
+    must still be physical (the property's consequence clause) and, for the correspondence, behave as the component built from
+    the same numbers as plain lists.  The constructor leaving its arguments as they were is recorded too (correspondence only)."""
+    import numpy as np
+    from sysloss.system import System
+    from sysloss.components import Source, ILoad
+    t = a[arg]
+    case = {"kind": kind, "args": a, "tag": "alias", "alias": {"arg": arg, "z": z, "form": form, "mut": mut}}
+    ctx.case(key=["alias", kind, repr(a), form, mut], nontrivial=True, sample={"kind": kind, "stream": "alias", "form": form, "mut": mut})
+    ctx.stats["stream:alias"] += 1
+    ctx.stats["alias:form:" + form] += 1
+    ctx.stats["alias:mut:" + mut] += 1
+    v, i = pt or ctorgen.probe_point(ctx.rng, kind, a)
+    case["probe"] = {"v": v, "i": i}
+    base = np.array(t[z], dtype=float)                  # 2-D (1 x n): the row handed over is a view of it
+    io = np.array(t["io"], dtype=float)
+    vi = np.array(t["vi"], dtype=float)
+    na = copy.deepcopy(a)
+    na[arg] = {"vi": vi if "v" in form else list(t["vi"]), "io": io if "i" in form else list(t["io"]),
+               z: (base if "Z" in form else [base[0]] if "z" in form else copy.deepcopy(t[z]))}
+    snap = (base.copy(), io.copy(), vi.copy())
+    try:
+        comp = sysdesc.KIND_CLASS[kind]("X0", **na)
+    except Exception as e:      # noqa
+        ctx.stats["alias:ctor:" + probe.exc_name(e)] += 1   # numpy arrays are not a documented table form: nothing is demanded
+        return
+    ctx.stats["alias:ctor:ok"] += 1
+    if not (np.array_equal(base, snap[0]) and np.array_equal(io, snap[1]) and np.array_equal(vi, snap[2])):
+        ctx.corr(case, "constructor: the caller's table arrays are left as they were", {"before": [s.tolist() for s in snap],
+                                                                                    "after": [base.tolist(), io.tolist(), vi.tolist()]})
+    # the caller reuses the buffers
+    if mut == "scale":
+        base *= 2.5
+    elif mut == "negate":
+        base *= -3.0
+    elif mut == "fill":
+        base[:] = 1.3 if z == "eff" else -4.0 * float(np.max(np.abs(snap[0])))
+    elif mut == "axis":
+        io *= 0.01
+    # reference: same numbers as lists
+    desc, name, rows, obs, err = probe_table(kind, a, v, i)
+    if err is not None:
+        ctx.stats["alias:probe:" + probe.exc_name(err[1])] += 1
+        return
+
+    def go():
+        s = System("probe", Source("S0", vo=v))
+        par = "S0"
+        if kind == "pmux":
+            par = ["S0"]
+        s.add_comp(par, comp=comp)
+        s.add_comp("X0", comp=ILoad("L0", ii=i))
+        return s.solve(**probe.SOLVE_KW)
+    df, e, _ = H.quiet(go)
+    if e is not None:
+        ctx.oracle(case, "accepted_physical", kind, {"alias": True}, {"failed": ["snapshot(probe of the accepted component raises %s after the caller "
+                   "reused its arrays; the list-built twin solves)" % probe.exc_name(e)], "args": a, "alias": case["alias"]})
+        return
+    ctx.stats["alias:probe:ok"] += 1
+    row = {r["name"]: r for r in sysdesc.observe(df)["phases"][0]["rows"]}["X0"]
+    failed = physical(kind, row)
+    col = rows_differ(rows[name], row)
+    if failed:
+        ctx.oracle(case, "accepted_physical", kind, {"alias": True},
+                   {"failed": failed + ["snapshot(%s)" % col], "row": {k: row[k] for k in ("vin", "vout", "iin", "iout", "pwr", "loss", "eff")},
+                    "twin_row": {k: rows[name][k] for k in ("vin", "vout", "iin", "iout", "pwr", "loss", "eff")}, "args": a,
+                    "alias": case["alias"], "probe": {"v": v, "i": i}})
+    elif col is not None:
+        ctx.corr(case, "accepted component = the validated table (caller's arrays reused afterwards)",
+                 {"col": col, "impl": row[col], "model(list-built twin, certified)": rows[name][col]})
+
+
+def alias_stream(ctx, n):
+    for _ in range(n):
+        kind = ctx.rng.choice(TABLE_KINDS)
+        a = ctorgen.gen_valid(ctx.rng, kind)
+        arg, z = ctorgen.ensure_table(ctx.rng, kind, a)
+        t = a[arg]
+        for _k in range(8):
+            if isinstance(t.get("vi"), list) and len(t["vi"]) == 1:
+                break
+            t = a[arg] = ctorgen.small_table(ctx.rng, z, *{"eff": (0.3, 1.0), "vdrop": (0.05, 1.0)}.get(z, (1e-5, 1e-2)))
+        if not (isinstance(t.get("vi"), list) and len(t["vi"]) == 1) or ctorgen.must_reject(kind, a):
+            ctx.stats["alias:skipped"] += 1
+            continue
+        form = ctx.rng.choice(["iz", "iZ", "viZ", "z", "Z", "i", "viz"])
+        mut = ctx.rng.choice(["scale", "negate", "fill", "axis"])
+        alias_case(ctx, kind, a, arg, z, form, mut)
+
+
 # regression cases of the former findings F08, F12, F28-C11-IQKEY, F11 (all fixed in /repo) and the F13 observation;
 # corpus/C11/*.json holds the same cases as files
 WITNESSES = [("pmux", {"rs": -1.0}, "valid"), ("rectifier", {"rs": -1.0}, "valid"), ("rectifier", {"rs": [0.1, 0.2]}, "valid"),
@@ -262,6 +360,7 @@ def run(ctx):
     nprobe = ctx.n(1200, 20000)
     for kind, a, tag in WITNESSES + corpus_cases():
         one_call(ctx, kind, copy.deepcopy(a), tag)
+    alias_stream(ctx, ctx.n(150, 2000))
     done = 0
     for k in range(n):
         kind = ctx.rng.choice(ctorgen.KINDS)
@@ -288,4 +387,7 @@ def search(ctx):
 
 def replay(ctx, data):
     case = data["case"]
+    if case.get("tag") == "alias":
+        al = case["alias"]
+        return alias_case(ctx, case["kind"], case["args"], al["arg"], al["z"], al["form"], al["mut"], pt=(case["probe"]["v"], case["probe"]["i"]))
     one_call(ctx, case["kind"], case["args"], case.get("tag", "valid"))
